@@ -118,6 +118,19 @@ pub fn all_strings(ctx: &Ctx, total: &mut Collector, tys: &[TyEntry], sub: &str,
     total.note(&format!("wall_s/{sub}"), json!(t0.elapsed().as_secs_f64()));
 }
 
+fn multibyte_symbols() -> &'static Vec<String> {
+    static CELL: std::sync::OnceLock<Vec<String>> = std::sync::OnceLock::new();
+    CELL.get_or_init(|| {
+        let mut v: Vec<String> = (0x80u32..0x800).filter_map(char::from_u32).map(|c| c.to_string()).collect();
+        v.extend((0x800u32..0x10000).step_by(61).filter_map(char::from_u32).map(|c| c.to_string()));
+        for cp in [0x1c30u32, 0x1c39, 0x6c30, 0x20ac, 0x4e00, 0xff46, 0xfeff] {
+            v.extend(char::from_u32(cp).map(|c| c.to_string()));
+        }
+        v.push("\u{1d7d8}".to_string());
+        v
+    })
+}
+
 /// Valid base strings of L digits.
 fn bases(l: usize) -> Vec<String> {
     let cyc = "0f1E2d3C4b5A69788796a5B4c3D2e1F0";
@@ -174,9 +187,12 @@ fn for_each_edit(base: &[&str], alpha1: &[&str], alpha2: &[&str], f: &mut dyn Fn
         v.extend_from_slice(&base[p + 1..]);
         emit(&v, f);
     }
-    // byte-length-preserving replacement of k adjacent symbols by one k-byte character
-    let spans: [(usize, &str); 3] = [(2, "\u{e9}"), (3, "\u{20ac}"), (4, "\u{1d7d8}")];
-    for (k, sym) in spans {
+    // byte-length-preserving replacement of k adjacent symbols by one k-byte character: EVERY two-byte
+    // character (U+0080..U+07FF; a byte-wise digit test that folds or masks bytes lets some of them
+    // through, e.g. U+00F0 = C3 B0 looks like "C0" under & 0x7f), every 61st three-byte character plus
+    // those whose bytes fold onto digits, and a four-byte one
+    let multi = multibyte_symbols();
+    for (k, sym) in multi.iter().map(|s| (s.len(), s.as_str())) {
         if n < k {
             continue;
         }
@@ -290,7 +306,7 @@ pub fn edits(ctx: &Ctx, total: &mut Collector, tys: &[TyEntry]) {
         sub,
         true,
         &format!(
-            "for each of the 10 FromStr impls and each documented digit count {:?}: 2 valid base strings x with/without '#': every 1-symbol substitution and insertion at every position over {} symbols (all 128 ASCII characters, U+00E9, U+20AC, U+1D7D8, fullwidth f and 1, Arabic-Indic three, NBSP, BOM), every 2-symbol substitution over {} symbols (Sigma; thorough: + ASCII neighbours of the digit ranges, control chars and the non-ASCII digits), every deletion, every byte-length-preserving replacement of 2/3/4 adjacent digits by one 2/3/4-byte character (and two 2-byte ones), a sign in front of every channel group",
+            "for each of the 10 FromStr impls and each documented digit count {:?}: 2 valid base strings x with/without '#': every 1-symbol substitution and insertion at every position over {} symbols (all 128 ASCII characters, U+00E9, U+20AC, U+1D7D8, fullwidth f and 1, Arabic-Indic three, NBSP, BOM), every 2-symbol substitution over {} symbols (Sigma; thorough: + ASCII neighbours of the digit ranges, control chars and the non-ASCII digits), every deletion, every byte-length-preserving replacement of 2/3/4 adjacent digits by one 2/3/4-byte character (all 1920 two-byte characters, every 61st three-byte character and a few chosen ones, one four-byte character; and two 2-byte ones), a sign in front of every channel group",
             lens,
             alpha1.len(),
             alpha2.len()
